@@ -85,9 +85,11 @@ def run_round(world, rnd, rng=None, wss=None):
     if rnd["mode"] == "free":
         for i, d in enumerate(procs):
             ch = sw.Child(world, d, free=True)
-            ev = ch.go(60.0)
+            ev = ch.go(120.0)
             if ev["ev"] != "done":
                 ch.kill()
+                trace["hang"] = ev["ev"]
+                break
             world.normalise_mtimes()
             trace["steps"].append({"p": i, "ev": ev, "snap": world.snapshot(BIDS, wss), "free": True})
             trace["schedule"].append(i)
@@ -774,18 +776,26 @@ def random_cases(ctx, n, tag):
              "conc": r.choice([None, None, 2, 3])} for i in range(n)]
 
 
+_DIRECTED = []        # executions of the directed cases by the oracle; the correspondence compares the same executions
+
+
 def oracle(ctx):
     quota_parse_check(ctx)
-    end_to_end_empty_store(ctx)
     # directed interleavings
     dc = directed_cases()
     res = run_cases(ctx, [{"rounds": rounds, "name": name} for name, rounds in dc], "dir")
+    del _DIRECTED[:]
     for case, traces, err in res:
         if err:
             raise RuntimeError("directed case %s: %s" % (case.get("name"), err))
         _count_trace(ctx, traces)
         _report(ctx, judge(traces), traces, "directed interleaving " + case["name"])
         ctx.count("directed", case["name"])
+        _DIRECTED.append((case, traces, None))
+    if ctx.time_left() > ctx.scale(60, 300):
+        end_to_end_empty_store(ctx)
+    else:
+        ctx.skip("bob clean --shared end-to-end run (no time left; the directed interleaving covers the same defect)")
     if len(ctx.samples) < 6:
         ctx.samples.append({"directed": dc[0][0], "rounds": json.loads(json.dumps(dc[0][1]))})
     # drawn cases
@@ -913,10 +923,11 @@ def correspond(ctx):
     done = 0
     first = True
     while first or (done < n and ctx.time_left() > ctx.scale(22, 150)):
-        cs = (cases if first else []) + (random_cases(ctx, min(32, n - done), "cor%d" % done)
-                                          if ctx.time_left() > ctx.scale(30, 150) else [])
+        reuse = [(dict(c, _reused=True), t, e) for c, t, e in _DIRECTED] if first and len(_DIRECTED) == len(cases) else []
+        cs = (cases if first and not reuse else []) + (random_cases(ctx, min(32, n - done), "cor%d" % done)
+                                                       if ctx.time_left() > ctx.scale(30, 150) else [])
         first = False
-        res = run_cases(ctx, cs, "cor%d" % done, ctx.scale(22, 150))
+        res = reuse + (run_cases(ctx, cs, "cor%d" % done, ctx.scale(22, 150)) if cs else [])
         reqs, spans = [], []
         for case, traces, err in res:
             if err:
@@ -929,11 +940,12 @@ def correspond(ctx):
             reqs.extend(rq)
         replies = ctx.lean(DRIVER, reqs)
         for case, traces, a, k in spans:
-            _count_trace(ctx, traces)
             nseg = compare(ctx, traces, replies[a:a + k], case.get("gen", case.get("name")))
             ctx.trace_validated(nseg)
-            # the oracle also looks at these executions (it needs no model)
-            _report(ctx, judge(traces), traces, "case %s" % case.get("gen", case.get("name")))
+            if not case.get("_reused"):
+                _count_trace(ctx, traces)
+                # the oracle also looks at these executions (it needs no model)
+                _report(ctx, judge(traces), traces, "case %s" % case.get("gen", case.get("name")))
         done += len(cs)
     ctx.notes["correspondence_cases"] = done
     select_correspondence(ctx)
